@@ -244,6 +244,23 @@ def constant_divisor_probes():
     return out
 
 
+def constant_index_probes():
+    """Index and data are both compile-time constants (literal, folded, const variable): the lookup may be folded, left to
+    the run-time check, or - where it faults - rejected at compile time, but it must behave like the run-time lookup.
+    The operand from argv only selects nothing (kept for uniformity); each probe has its constant index in the name."""
+    out = []
+    datas = [('"abc"', 3, 'write(%s is int);'), ('cs', 2, 'write(%s is int);'), ('gs', 4, 'write(%s is int);'), ('[10, 20, 30]', 3, 'write(%s);'),
+             ('gt', 2, 'write(%s);'), ("['x', 'y']", 2, 'write(%s is int);'), ('lt', 3, 'write(%s);'), ('[true, false, true]', 3, 'write(%s);'), ('""', 0, 'write(%s is int);')]
+    for dsrc, n, show in datas:
+        for isrc in ('-1', '0 - 1', '1 - 2', 'KM', '-%d' % max(n, 1), '0 - %d' % (n + 1), str(n), '%d + 1' % n, 'KN', str(max(n - 1, 0)), '0', '255', '256', '-256'):
+            glob = GLOBAL_CANARY + 'const string gs = "wxyz"; const int[] gt = [7, 8]; const int KM = -1; const int KN = %d;\n' % n
+            body = 'const string cs = "ab"; const int[] lt = [1, 2, 3];'
+            stmt = show % ('%s[%s]' % (dsrc, isrc))
+            src = '%s\nempty @is_you(int i) {\n  %s\n  %s\n  write(\'B\');\n  %s\n  %s\n}\n' % (glob, CANARY_DECL, body, stmt, CANARY_SHOW)
+            out.append(('cidx:%s:%s' % (dsrc, isrc), src, lambda i: [i]))
+    return out
+
+
 def length_probes():
     out = []
     for el in ('int', 'byte', 'bool', 'string'):
@@ -307,6 +324,8 @@ def grid(kind, ws):
     lo = -hi - 1
     if kind.startswith(('index', 'strindex')):
         return [-1, 0, 1, L - 1, L, L + 1, hi, lo, -L, 254, 255, 256, 257, hi - 1, lo + 1, 256 + L - 1, 256 + L, -256, -254, 511, 512]
+    if kind.startswith('cidx'):
+        return [0]
     if kind.startswith('cdiv'):
         return [0, 1, -1, 100, hi, lo]
     if kind.startswith('div'):
@@ -371,6 +390,10 @@ def check_probe(stats, name, src, vals, ws, operand):
     stats.cls('ref_' + v.ref.kind)
     if near_boundary(name, operand, ws):
         stats.nt('%s|%r|%d' % (name, operand, ws))
+    if v.status != 'agree' and v.sig == 'rejected' and kind == 'cidx' and v.ref.kind.startswith('fault:'):
+        # a constant lookup that would fault at run time may be rejected at compile time (property C14 allows exactly that)
+        stats.cls('constant_fault_rejected_at_compile_time')
+        return None
     if v.status != 'agree':
         return ('%s:%s' % (kind, v.sig), 'probe %s ws=%d operand=%r: %s\n%s' % (name, ws, operand, v.msg, src))
     if v.ref.kind.startswith('fault:') and v.run.res is not None:
@@ -389,7 +412,7 @@ ALL = None
 def all_probes():
     global ALL
     if ALL is None:
-        ALL = index_probes() + division_probes() + constant_divisor_probes() + length_probes() + preempt_probes()
+        ALL = index_probes() + division_probes() + constant_divisor_probes() + constant_index_probes() + length_probes() + preempt_probes()
     return ALL
 
 
